@@ -73,6 +73,7 @@ type a2spec struct {
 	Reseal      bool              // recompute the set id from the (mutated) main body; else keep the original id
 	LenOverride map[string]uint64 // packet kind -> header length field value
 	OrigSetID   [16]byte
+	Order       int // packet order inside each file: 0 creator, main, descriptions, checksums; 1 main last; 2 checksums before descriptions; 3 everything reversed; 4 descriptions, checksums, main, creator
 }
 
 func (a *a2spec) mainBody() []byte {
@@ -102,6 +103,34 @@ func (a *a2spec) frame(kind string, t [16]byte, body []byte) []byte {
 }
 
 func (a *a2spec) core() [][]byte {
+	groups := a.coreGroups()
+	pick := func(ix ...int) [][]byte {
+		var o [][]byte
+		for _, i := range ix {
+			o = append(o, groups[i]...)
+		}
+		return o
+	}
+	switch a.Order {
+	case 1:
+		return pick(0, 2, 3, 1)
+	case 2:
+		return pick(0, 1, 3, 2)
+	case 3:
+		o := pick(0, 1, 2, 3)
+		for i, j := 0, len(o)-1; i < j; i, j = i+1, j-1 {
+			o[i], o[j] = o[j], o[i]
+		}
+		return o
+	case 4:
+		return pick(2, 3, 1, 0)
+	}
+	return pick(0, 1, 2, 3)
+}
+
+// coreGroups returns the creator, main, description and checksum packets (in that order of groups).
+func (a *a2spec) coreGroups() [4][][]byte {
+	var groups [4][][]byte
 	var out [][]byte
 	if a.Creator {
 		c := a.frame("creator", rpar2.TypeCreator, []byte("refwriter\x00\x00\x00"))
@@ -110,6 +139,7 @@ func (a *a2spec) core() [][]byte {
 			out = append(out, c)
 		}
 	}
+	groups[0], out = out, nil
 	if a.Main {
 		m := a.frame("main", rpar2.TypeMain, a.mainBody())
 		out = append(out, m)
@@ -117,6 +147,7 @@ func (a *a2spec) core() [][]byte {
 			out = append(out, m)
 		}
 	}
+	groups[1], out = out, nil
 	for _, d := range a.Descs {
 		if d.Drop {
 			continue
@@ -134,6 +165,7 @@ func (a *a2spec) core() [][]byte {
 			out = append(out, p)
 		}
 	}
+	groups[2], out = out, nil
 	for _, f := range a.IFSCs {
 		if f.Drop {
 			continue
@@ -152,7 +184,8 @@ func (a *a2spec) core() [][]byte {
 			out = append(out, p)
 		}
 	}
-	return out
+	groups[3] = out
+	return groups
 }
 
 func (a *a2spec) volume() []byte { return a.volumeRange(0, len(a.Recvs)) }
@@ -217,6 +250,10 @@ var c19P2Muts, c19P1Muts []c19Mut
 
 func init() {
 	add := func(name string, f func(a *a2spec)) { c19P2Muts = append(c19P2Muts, c19Mut{Name: name, P2: f}) }
+	for _, o := range []int{1, 2, 3, 4} {
+		o := o
+		add(fmt.Sprintf("order=%d (%s)", o, []string{"", "main last", "checksums before descriptions", "reversed", "descriptions, checksums, main, creator"}[o]), func(a *a2spec) { a.Order = o })
+	}
 	// main packet
 	for _, v := range []uint64{0, 1, 3, 5, 8, 12, 16, 1 << 16, 1 << 24, 1<<63 - 4, 1 << 63, 1<<64 - 4, 1<<64 - 1} {
 		v := v
@@ -1170,7 +1207,7 @@ func init() {
 	core.Register(&core.Prop{
 		ID:    "C19",
 		Level: "model_checking",
-		Rule: "bounded-exhaustive semantic mutations through the reference writers (every mutated packet / volume is re-checksummed): PAR2: main packet slice size and count at boundary values (with re-sealed and with stale set id), duplicate / unsorted / missing / unknown ids, removal and duplication of each packet type, every file description length at boundary values (id recomputed), wrong hashes and ids, checksum lists longer / shorter / empty / huge, recovery exponents {1,4,5,100,65534,65535,65536,2^31,2^32-1}, recovery payloads of size {0,4,8,12,64}, duplicate exponent with different data, and every packet type's length field at {0,4,60,63,64,65,68,real-4,real+4,2^31,2^63-4,2^63,2^64-4}; PAR1: every header field and every entry field at boundary values, entry counts {253..257, 300} (extra entries saved / not saved) around the 256-shard limit, missing / duplicated entries, truncated data, odd name bytes; plus, on real directories, a valid set with directory entries that are not regular files under names the decoders look for (dangling symlink / directory / symlink loop / symlink to the index / empty file as a recovery file or look-alike, dangling symlink / directory as a data file), singly and in all ordered pairs. " +
+		Rule: "bounded-exhaustive semantic mutations through the reference writers (every mutated packet / volume is re-checksummed): PAR2: main packet slice size and count at boundary values (with re-sealed and with stale set id), duplicate / unsorted / missing / unknown ids, removal and duplication of each packet type, four non-canonical packet orders, every file description length at boundary values (id recomputed), wrong hashes and ids, checksum lists longer / shorter / empty / huge, recovery exponents {1,4,5,100,65534,65535,65536,2^31,2^32-1}, recovery payloads of size {0,4,8,12,64}, duplicate exponent with different data, and every packet type's length field at {0,4,60,63,64,65,68,real-4,real+4,2^31,2^63-4,2^63,2^64-4}; PAR1: every header field and every entry field at boundary values, entry counts {253..257, 300} (extra entries saved / not saved) around the 256-shard limit, missing / duplicated entries, truncated data, odd name bytes; plus, on real directories, a valid set with directory entries that are not regular files under names the decoders look for (dangling symlink / directory / symlink loop / symlink to the index / empty file as a recovery file or look-alike, dangling symlink / directory as a data file), singly and in all ordered pairs. " +
 			"Each mutation applied to index+volumes / index only / volumes only / the second volume file only x data {intact, first file missing, a slice overwritten}; all single mutations in every placement and data state, and ALL pairs (quick: 2 placements, rotating data state; thorough: 4 placements x 3 data states); real Verify and Repair. " +
 			"Oracle: no panic / crash / hang; TotalAlloc delta <= 64 x (bytes present + declared slice size x 6) + 256 MiB; usable recovery blocks <= recovery packets whose payload has the declared slice size; usable data <= declared checksum entries matching bytes actually present; every write matches the archive's own MD5 and length for that path. non-trivial = every case",
 		Assumptions: []string{"slice sizes >= 2^26 are capped in the allocation bound; 2^31-class slice sizes (seconds of legitimate proportional allocation) are not executed", "TotalAlloc is attributed per execution because workers are single-threaded"},
